@@ -1470,7 +1470,7 @@ fn enumerate_queue(cx: &mut Ctx, len: usize, alphabet: &[i64], cap: usize, strid
 
 pub fn run(args: &Args) {
     let mut cx = Ctx {
-        sum: Summary::new("C18", "corpus; all WorkStealingQueue histories of <= 6 operations over push(prio 0/1, stealable or not)/pop_local/steal/balance + random histories around the capacity; the running executor with 1, 2, 3, 4 workers on current-thread and multi-thread runtimes, task counts around workers*capacity, around the global overflow and around the balance trigger (100 executed), mixed priorities/stealability/task behaviour (incl. tasks that fail, that panic, and that submit children from inside a worker), workers busy / idle / idle for 120 ms when the tasks arrive, a second wave after a complete drain; executor histories through the paused-executor hook (all interleavings of submit/find_task/balance of small shape for 1 and 2 workers + random ones for 1..4 workers); FiberPool histories (1..9 gated bodies that succeed, fail or panic, max_fibers 1..n+1, random gate orders); executor histories with is_idle and queue-length observers around the capacity; parallel_map/for_each/reduce, process_batch, execute_single/two_stage, execute_stream (also with panicking stages), BatchCollector (also against the real clock and with its background checker on two threads) and the yield/aio helpers on vectors of length 0..40 with and without failing, panicking and timed-out items, concurrency limits, batch sizes and yield intervals 0, 1, 2, around the input length and beyond. A case is non-trivial when it has >= 2 tasks/items (queue histories: >= 2 pushes and a steal or balance); distinct = distinct canonical case text"),
+        sum: Summary::new("C18", "corpus; all WorkStealingQueue histories of <= 6 operations over push(prio 0/1, stealable or not)/pop_local/steal/balance + random histories around the capacity; the running executor with 1, 2, 3, 4 workers on current-thread and multi-thread runtimes, task counts around workers*capacity, around the global overflow and around the balance trigger (100 executed), mixed priorities/stealability/task behaviour (incl. tasks that fail, that panic, and that submit children from inside a worker), workers busy / idle / idle for 120 ms when the tasks arrive, a second wave after a complete drain; executor histories through the paused-executor hook (all interleavings of submit/find_task/balance of small shape for 1 and 2 workers + random ones for 1..4 workers); FiberPool histories (1..9 gated bodies that succeed, fail or panic, max_fibers 1..n+1, random gate orders); executor histories with is_idle and queue-length observers around the capacity; parallel_map/for_each/reduce, process_batch, execute_single/two_stage, execute_stream (also with panicking stages), BatchCollector (also against the real clock and with its background checker on two threads) and the yield/aio helpers on vectors of length 0..40 with and without failing, panicking and timed-out items, concurrency limits, batch sizes and yield intervals 0, 1, 2, around the input length and beyond; oracle breadth (c18_wide.rs, oracle only): the same queue / hook-history / executor cells with the library's ClosureTask and submit_closure as the task type and with a Task that keeps the trait's default methods, 64 workers and queues of 2^16 / 2^20 slots, executor lifecycles (2-4 waves, statistics at rest, shutdown, submissions after it), the process-wide executor (init_concurrency) shared by all its cases, histories of 3-13 different operations on one FiberPool (5 presets incl. FiberPoolBuilder and FiberPool::default; map / for_each / reduce / spawn_batch / spawn + abort / shutdown, failing and panicking items, unit / String / byte items), on one Pipeline (6 presets incl. PipelineBuilder with every setter, zeros and Duration::MAX; MapStage / BatchMapStage with max_concurrency / FilterStage / suspending and slow stages, execute_single / two_stage / stream with a concurrent consumer / zero stages, the stages' own process_batch) and on one blob store (memory presets, file store, compressed wrappers: put_batch / put / remove / get_batch in permuted order, with duplicates and with a missing id), BatchCollector over unit / u8 / String items with batch limits 0, 1, usize::MAX, inputs of 15..300 items around the yield budget and of 100..65537 items (described by which / n / seed) around the batch size 100, the buffer 1000, the in-flight limit 10000, 4096, 2^16 and multiples of the CPU count through 17 entry points, histories on the yield points for 7 budget configurations, real files around 64 KiB and 256 KiB through FiberAio, spawn_blocking / Fiber / abort. A case is non-trivial when it has >= 2 tasks/items (queue histories: >= 2 pushes and a steal or balance); distinct = distinct canonical case text"),
         shards: CoqShards::new(&header(), 300),
         budget: {
             let mut b = [0usize; NK];
